@@ -72,6 +72,20 @@ fn fromstr_case(em: &mut Emitter, cs: u8, text: &str) {
 
 fn prim_tlv(tag: u8, c: &[u8]) -> Vec<u8> { let mut v = vec![tag]; v.extend(ref_len_octets(c.len())); v.extend_from_slice(c); v }
 
+/// The octets `b` cut at random places into a random tree of segments: nested constructed segments
+/// (definite or indefinite) may be followed by further segments at every level.
+fn split_os(rng: &mut Rng, b: &[u8], depth: u32) -> Os {
+    let k = rng.range(1, 4) as usize;
+    let mut cuts: Vec<usize> = (0..k - 1).map(|_| rng.below(b.len() as u64 + 1) as usize).collect();
+    cuts.push(0); cuts.push(b.len()); cuts.sort();
+    let mut kids = Vec::new();
+    for w in cuts.windows(2) {
+        let part = &b[w[0]..w[1]];
+        kids.push(if depth > 0 && rng.chance(1, 2) { split_os(rng, part, depth - 1) } else { Os::Prim(part.to_vec()) });
+    }
+    Os::Cons(rng.bool(), kids)
+}
+
 pub fn run(em: &mut Emitter, rng: &mut Rng, thorough: bool) {
     let cont: [u8; 8] = [0x7f, 0x80, 0x8f, 0x90, 0x9f, 0xa0, 0xbf, 0xc0];
     // all 1-octet strings for every set, all 2-octet strings for UTF-8
@@ -92,9 +106,12 @@ pub fn run(em: &mut Emitter, rng: &mut Rng, thorough: bool) {
         let mut b = text.into_bytes();
         if rng.chance(1, 3) && !b.is_empty() { let k = rng.below(b.len() as u64) as usize; b[k] = if rng.bool() { rng.byte() } else { *rng.pick(&cont) }; }
         let k1 = rng.below(b.len() as u64 + 1) as usize; let k2 = rng.range(k1 as u64, b.len() as u64) as usize;
-        let o = Os::Cons(rng.bool(), vec![Os::Prim(b[..k1].to_vec()), Os::Prim(b[k1..k2].to_vec()), Os::Cons(rng.bool(), vec![Os::Prim(b[k2..].to_vec())])]);
+        let o = if rng.bool() { Os::Cons(rng.bool(), vec![Os::Prim(b[..k1].to_vec()), Os::Prim(b[k1..k2].to_vec()), Os::Cons(rng.bool(), vec![Os::Prim(b[k2..].to_vec())])]) }
+                else { split_os(rng, &b, 3) };
         let mut data = Vec::new(); os_encode(&o, TAGS[cs as usize], &mut data);
-        decode_case(em, cs, if rng.chance(4, 5) { 0 } else { rng.below(3) as u8 }, &data, None);
+        // in BER mode every segmentation is legal: the string is accepted exactly when the assembled octets are valid
+        let mode = if rng.chance(4, 5) { 0 } else { rng.below(3) as u8 };
+        decode_case(em, cs, mode, &data, if mode == 0 { Some(&b) } else { None });
         decode_case(em, cs, rng.below(3) as u8, &prim_tlv(TAGS[cs as usize], &b), Some(&b));
     }
     // Rust strings for the string constructors
